@@ -30,6 +30,7 @@ var scopeProgs = []scopeProg{
 	{"sel-assign-free", `@m := {k: a}; @g := func() { @h := func() { @m.k = @m.k * 2 + b; @m.j = c }; @h() }; @g()`, `@m`, false},
 	{"copied-closure", `@n := 0; @obj := {inc: func() { @n += 1 }, get: func() { return @n }}; @cp := copy(@obj); @cp.inc(); @obj.inc(); @fs := copy([@obj.get]); @r := [@n, @obj.get(), @cp.get(), @fs[0]()]`, `@r`, false},
 	{"captured-then-reused-slot", `@o := 0; if c { @k := a; @g := func() { return @k }; @o = @g() }; @s := 0; for @v in [1, 2, b] { @s += @v }; @h := func() { return @s + @o }; @r := @h()`, `@r, @s, @o`, false},
+	{"live-closure-then-forin", `@g := undefined; @s := 0; if c { @k := a; @g = func() { return @k } }; for @v in [1, 2, b] { @s += @v }; if c { @k2 := b; @g2 := func() { return @k2 }; @s += @g2() }; for @i, @w in {x: a} { @s += @w }; @r := is_undefined(@g) ? -1 : @g()`, `@r, @s`, false},
 	{"incdec-closure", `@x := a; @f := func() { @x++; @x++; @x-- }; @f(); @y := b; @y -= @x`, `@x, @y`, false},
 	{"shadow", `@x := a; @o := 0; if c { @x := b; @x += 1; @o = @x } else { @x = @x + 2; @o = @x }`, `@x, @o`, false},
 	{"logical", `@p := #(a > 0)# && b > 0; @q := a > 0 || #(b > 0)#; @r := c ? @p : @q`, `@p, @q, @r`, false},
